@@ -437,7 +437,18 @@ type vf29POutcome struct {
 	Events     []vf29Event `json:"events,omitempty"`
 }
 
-var vf29PLocations = []string{"local", "remote", "ec-local", "ec-remote", "split-local", "local-late"}
+// Locations.  The "+" locations hold the object at SEVERAL places of the container (the normal
+// state of a REP 2 container): a refusal pronounced at one source – request stage, local
+// header, first remote answer – must still hold when the get service falls over to the next
+// source.
+//
+//	local+remote       replica in the local engine and on the remote container node
+//	local-late+remote  replica on the remote node; the local copy arrives (replication) after
+//	                   the request-stage check, i.e. the local header check is the first
+//	                   header-informed one and the remote replica is still reachable afterwards
+//	remote+remote      the local node (container member) has no copy, both remote nodes do
+var vf29PLocations = []string{"local", "remote", "ec-local", "ec-remote", "split-local", "local-late",
+	"local+remote", "local-late+remote", "remote+remote"}
 var vf29PFilters = []string{"attribute", "objectID", "payloadLength", "ownerID"}
 
 // vf29PFire executes case c with the forbidden or the allowed twin of the object.
@@ -447,6 +458,9 @@ func vf29PFire(r *verifkit.Run, st *vf29Store, c *vf29PCase, forbidden bool, kee
 	nRemotes := 1
 	if strings.HasPrefix(c.Location, "ec-") {
 		nRemotes = 3
+	}
+	if c.Location == "remote+remote" {
+		nRemotes = 2
 	}
 	w := vf29NewWorld(rng, nRemotes)
 	st.sink.cur.Store(w.log)
@@ -563,7 +577,10 @@ func vf29PFire(r *verifkit.Run, st *vf29Store, c *vf29PCase, forbidden bool, kee
 			tb := eacl.NewTableForContainer(w.cnrID, []eacl.Record{eacl.ConstructRecord(eacl.ActionDeny, op, []eacl.Target{eacl.NewTargetByRole(eacl.RoleOthers)}, eacl.NewFilterObjectWithID(objID))})
 			w.eacl = &tb
 		}
-	case "local-late":
+	case "local-late", "local-late+remote":
+		if c.Location == "local-late+remote" {
+			remotes[0].objs[objID] = obj
+		}
 		before = func() {
 			st.sink.cur.Store(nil) // the replication itself is not part of the request
 			err := st.eng.Put(context.Background(), obj, nil)
@@ -573,13 +590,19 @@ func vf29PFire(r *verifkit.Run, st *vf29Store, c *vf29PCase, forbidden bool, kee
 			}
 			w.log.read("object replicated to the local engine (after the request-stage check)")
 		}
-	case "local":
+	case "local", "local+remote":
 		if err := st.eng.Put(context.Background(), obj, nil); err != nil {
 			o.Panic = "harness: engine put: " + err.Error()
 			return o
 		}
+		if c.Location == "local+remote" {
+			remotes[0].objs[objID] = obj
+		}
 	case "remote":
 		remotes[0].objs[objID] = obj
+	case "remote+remote":
+		remotes[0].objs[objID] = obj
+		remotes[1].objs[objID] = obj
 	case "ec-local", "ec-remote":
 		parts, _, err := iec.Encode(rule, payload)
 		if err != nil {
@@ -608,6 +631,20 @@ func vf29PFire(r *verifkit.Run, st *vf29Store, c *vf29PCase, forbidden bool, kee
 			p := po
 			remotes[ri].parts[vf29PartKey(objID, "0", strconv.Itoa(i))] = &p
 		}
+	}
+	if strings.HasPrefix(c.Location, "local-late") {
+		// precondition of the "-late" locations: no local copy at request time (the twins of an
+		// objectID-rule case are the same object and share the engine)
+		a := oid.NewAddress(w.cnrID, objID)
+		st.sink.cur.Store(nil)
+		if _, err := st.eng.Head(context.Background(), a, false); err == nil {
+			r.Count("late_precondition_restored", 1)
+			if err := st.eng.Drop(context.Background(), a); err != nil {
+				o.Panic = "harness: drop of the earlier twin's copy: " + err.Error()
+				return o
+			}
+		}
+		st.sink.cur.Store(w.log)
 	}
 	// storing must not count as part of the request
 	w.log.mu.Lock()
@@ -807,15 +844,17 @@ func vf29PGen(r *verifkit.Run, idx int) *vf29PCase {
 func TestVerif_C29_Payload(t *testing.T) {
 	r := verifkit.Start(t, "C29", "exploration")
 	defer r.Finish()
-	r.SetRule("per case one GET / HEAD / RANGE of an object whose header is (forbidden twin) or is not (allowed twin) matched by a DENY rule of the container eACL for the sender's role; RPC x body variant x object location (local / remote REP node / EC part local / EC parts remote) x filter kind (user attribute, object id, payload length, owner) x TTL x version x payload size; distinct = that tuple; non-trivial = the allowed twin was delivered completely through the same path")
+	r.SetRule("per case one GET / HEAD / RANGE of an object whose header is (forbidden twin) or is not (allowed twin) matched by a DENY rule of the container eACL for the sender's role; RPC x body variant x object location (local / remote REP node / EC part local / EC parts remote / split chain / local copy arriving after the request-stage check / replicas at several places: local+remote, late local+remote, two remotes) x filter kind (user attribute, object id, payload length, owner) x TTL x version x payload size; distinct = that tuple; non-trivial = the allowed twin was delivered completely through the same path")
 	r.Assume("real object server + real getsvc.Service + real single-shard engine + real ACL stack; remote storage nodes are scripted gRPC servers that trust container peers")
 	st := vf29OpenStore(t)
-	n := r.Pick(240, 3000)
+	n := r.Pick(288, 3600) // whole cycles of RPC(4) x location(9) x filter(4) = 144
 	judged := map[string]int{}
 	for idx := 0; idx < n; idx++ {
 		c := vf29PGen(r, idx)
 		r.Eval(1)
-		ctl := vf29PFire(r, st, c, false, false)
+		// events are kept from the one and only execution: the engine is shared, so a second
+		// run of a "-late" case would find the object already stored
+		ctl := vf29PFire(r, st, c, false, true)
 		if strings.HasPrefix(ctl.Panic, "harness:") {
 			r.Count("harness_stub_hits", 1)
 			r.Seen("harness_stub_cases", c.RPC+"|"+c.Variant+"|"+c.Location)
@@ -833,7 +872,7 @@ func TestVerif_C29_Payload(t *testing.T) {
 			r.Count("control_not_delivered_"+c.RPC+"_"+c.Location, 1)
 			r.Seen("control_failures", fmt.Sprintf("%s|%s|%s codes=%v %s", c.RPC, c.Variant, c.Location, ctl.Codes, ctl.GRPCErr))
 			if testing.Verbose() && r.Counter("control_not_delivered_"+c.RPC+"_"+c.Location) < 3 {
-				full := vf29PFire(r, st, c, false, true)
+				full := ctl
 				t.Logf("control not delivered: %s codes=%v grpc=%q events=%+v", c.sig(), full.Codes, full.GRPCErr, full.Events)
 			}
 			continue
@@ -856,20 +895,21 @@ func TestVerif_C29_Payload(t *testing.T) {
 		}
 		// O on the allowed twin
 		if ctl.FirstEval < 0 || ctl.FirstEval > ctl.FirstData {
-			full := vf29PFire(r, st, c, false, true)
+			full := ctl
 			r.Violation("data-before-header-eacl|"+key, fmt.Sprintf("%s %s (%s): object data reached the client (event %d) before any eACL evaluation that had the object's header (first such event: %d)", c.RPC, c.Variant, c.Location, ctl.FirstData, ctl.FirstEval), map[string]any{"case": c, "twin": "allowed", "outcome": full})
 		} else {
 			r.Count("ordering_ok_"+c.RPC, 1)
 		}
 
-		bad := vf29PFire(r, st, c, true, false)
+		ctlBrief := ctl
+		ctlBrief.Events = nil
+		bad := vf29PFire(r, st, c, true, true)
 		if strings.HasPrefix(bad.Panic, "harness:") {
 			r.Count("harness_stub_hits", 1)
 			continue
 		}
 		replay := func() any {
-			full := vf29PFire(r, st, c, true, true)
-			return map[string]any{"case": c, "twin": "forbidden", "outcome": full, "control": ctl}
+			return map[string]any{"case": c, "twin": "forbidden", "outcome": bad, "control": ctlBrief}
 		}
 		if bad.Panic != "" {
 			r.Violation("panic|"+key+"|forbidden", "handler panicked: "+bad.Panic, replay())
